@@ -164,6 +164,13 @@ def run_unit(unit, workdir):
                 st = "undecided"
         if res["status"] == "undecided" and st == "verified":
             st = "undecided"
+        if getattr(i, "lost_obligations", None) and st == "verified":
+            # in-body obligations of the overlay could not be placed in the changed source: not proved, not refuted
+            st = "undecided"
+            cl0 = [c for c in i.clauses if c["kind"] == "safety"][0]
+            failed.append({"obligation": "%s::%s::in-body" % (unit, i.name), "clause": "in-body obligations of the contract",
+                           "verus_message": "in-body obligation lost: %s (%s)" % ("; ".join(i.lost_obligations), "; ".join(i.lost)),
+                           "kind": "undecided", "at": "", "rendered": ""})
         if i.lost and st == "refuted":
             # a proof hint could not be placed: the failure may be the lost hint, not the code
             st = "undecided"
